@@ -290,6 +290,14 @@ class ElementTraits<std::index_sequence<I...>, Parameter...>
                 if constexpr (I == sizeof...(Parameter) - 1)
                 {
                     padding = next_padding;
+                    if (next_align < STORAGE_ELEMENT_ALIGNMENT &&
+                        detail::ParameterTraits<Parameter>::TYPE != detail::ParameterType::VARYING_SIZE)
+                    {
+                        // The parameters after the last VaryingSize are only known to start at a multiple of
+                        // next_align: assume the worst case for the padding up to the next element.
+                        padding = detail::align(next_offset, next_align) - next_offset + STORAGE_ELEMENT_ALIGNMENT -
+                                  next_align;
+                    }
                 }
             }(),
             ...);
